@@ -88,6 +88,22 @@ fn main() {
         usage();
     }
     match args[0].as_str() {
+        "c19-seed-corpus" => {
+            // writes the valid artefacts of every C19 surface as libFuzzer seed inputs
+            let root = std::path::PathBuf::from(std::env::var("VP_ROOT").unwrap_or_else(|_| "/verif".into()));
+            for t in vp_core::props::c19::TARGETS {
+                let dir = root.join("fuzz").join("corpus").join(vp_core::props::c19::dir_of_target(t));
+                std::fs::create_dir_all(&dir).unwrap();
+                for i in 0..48u16 {
+                    for f in [0u8, 1, 2] {
+                        let mut v = vec![f];
+                        v.extend(vp_core::props::c19::base_for(t, i));
+                        if v.len() > 100_000 { continue; }
+                        std::fs::write(dir.join(format!("seed-{:016x}", util::hash_bytes(&v))), &v).unwrap();
+                    }
+                }
+            }
+        }
         "list" => {
             for p in registry() {
                 println!("{}", p.id);
@@ -95,10 +111,28 @@ fn main() {
         }
         "replay" => {
             let Some(file) = args.get(1) else { usage() };
-            let text = std::fs::read_to_string(file).unwrap_or_else(|e| {
+            let raw = std::fs::read(file).unwrap_or_else(|e| {
                 eprintln!("vp: cannot read {file}: {e}");
                 std::process::exit(2)
             });
+            let text = String::from_utf8_lossy(&raw).into_owned();
+            // raw fuzzer inputs (fuzz/corpus/<target>/*, fuzz/artifacts/<target>/*) replay through
+            // the C19 entry point of that target
+            if let Some(target) = std::path::Path::new(file).parent().and_then(|d| d.file_name()).and_then(|n| vp_core::props::c19::target_of_dir(&n.to_string_lossy())) {
+                if serde_json::from_str::<ReplayFile>(&text).is_err() {
+                    let bytes = raw.clone();
+                    let (frags, data) = vp_core::props::c19::split_fuzz_input(&bytes);
+                    match vp_core::props::c19::exercise(target, data, &frags) {
+                        Ok(x) => println!("replay: pass (depth={}, alloc_peak={})", x.depth, x.alloc_peak),
+                        Err(e) => {
+                            println!("replay: FAIL {e}");
+                            println!("VIOLATION property=C19 replay={file}");
+                            std::process::exit(1);
+                        }
+                    }
+                    return;
+                }
+            }
             let rf: ReplayFile = serde_json::from_str(&text).unwrap_or_else(|e| {
                 eprintln!("vp: cannot parse {file}: {e}");
                 std::process::exit(2)
